@@ -17,6 +17,8 @@ import GenProps.C14ATN
 #print axioms Blackbird.C14_grammar_is_model_grammar
 #print axioms Blackbird.C14_model_token_kinds
 #print axioms Blackbird.C14_parser_code_skeletons_identical
+#print axioms Blackbird.C14_code_constants_match_grammar
+#print axioms Blackbird.C14_parser_lookahead_reads_identical
 #print axioms Blackbird.C14_lexer_atn_decodes
 #print axioms Blackbird.C14_lexer_subautomata
 #print axioms Blackbird.C14_lexer_certificates
